@@ -78,6 +78,8 @@ struct Since {
     /// (`check`, or a build that failed / did not emit)
     older_then_hashed: BTreeSet<String>,
     deleted_maps: BTreeSet<String>,
+    /// files that got a new path (renamed / restored / added) since then
+    new_paths: BTreeSet<String>,
     /// `[format]` of Veryl.toml changed
     format_changed: bool,
     /// a `[build]` option changed (the cache key changes, every entry is dropped) ...
@@ -87,6 +89,39 @@ struct Since {
     /// generic context and disk text at the last successful warm build
     ok_ctx: BTreeMap<String, String>,
     ok_disk: BTreeMap<String, String>,
+}
+
+/// Unchanged files (same text as at the last successful warm build) that depend
+/// on a file which has a new path since then: their dependents record sits
+/// under the old path and is never consulted.
+fn dependents_of_moved(p: &Project, ed: &Editor, since: &Since) -> BTreeSet<String> {
+    let deps = p.file_deps();
+    let mut out = BTreeSet::new();
+    if since.new_paths.is_empty() {
+        return out;
+    }
+    // transitive: S -> ... -> moved
+    for (s, _) in deps.iter() {
+        if since.ok_disk.get(s).is_none() || since.ok_disk.get(s) != ed.disk.get(s) {
+            continue;
+        }
+        let mut seen: BTreeSet<&String> = BTreeSet::new();
+        let mut stack = vec![s];
+        while let Some(x) = stack.pop() {
+            if !seen.insert(x) {
+                continue;
+            }
+            if let Some(ds) = deps.get(x) {
+                for t in ds {
+                    if since.new_paths.contains(t) {
+                        out.insert(s.clone());
+                    }
+                    stack.push(t);
+                }
+            }
+        }
+    }
+    out
 }
 
 fn explain_output_diff(
@@ -100,6 +135,7 @@ fn explain_output_diff(
     let mut keys: BTreeSet<&String> = cold.keys().collect();
     keys.extend(warm.keys());
     let ctx_now = p.generic_context();
+    let moved_deps = dependents_of_moved(p, ed, since);
     let mut causes: Vec<(String, String)> = vec![];
     for k in keys {
         if cold.get(k) == warm.get(k) {
@@ -125,6 +161,8 @@ fn explain_output_diff(
                 cause = "check-stored-entry-trusted-by-build".into();
             } else if kind == "map" && since.deleted_maps.contains(k) && warm.get(k).is_none() {
                 cause = "deleted-map-not-regenerated".into();
+            } else if moved_deps.contains(src) {
+                cause = "definition-moved-dependents-not-reanalysed".into();
             } else if unchanged && since.format_changed && kind != "filelist" {
                 cause = "format-section-not-in-cache-key".into();
             } else if unchanged && since.ok_ctx.get(src) != ctx_now.get(src) {
@@ -278,6 +316,12 @@ fn one_history(d: &mut Draw, thorough: bool) -> Outcome {
                 EditOp::DeleteOutput { rel, kind: OutKind::Map } => {
                     since.deleted_maps.insert(rel.clone());
                 }
+                EditOp::RenameFile { to, .. } => {
+                    since.new_paths.insert(to.clone());
+                }
+                EditOp::RestoreFile { file } => {
+                    since.new_paths.insert(p.files[*file].rel.clone());
+                }
                 EditOp::Toml(t) if matches!(t, TomlEdit::FormatIndent | TomlEdit::FormatAlign) => {
                     since.format_changed = true;
                 }
@@ -389,6 +433,8 @@ fn one_history(d: &mut Draw, thorough: bool) -> Outcome {
         if cold.code != warm.code {
             let sig = if warm.panicked && !cold.panicked {
                 "exit-status/warm-run-panics".to_string()
+            } else if !dependents_of_moved(&p, &ed, &since).is_empty() {
+                "exit-status/definition-moved-dependents-not-reanalysed".to_string()
             } else {
                 format!("exit-status/{}", cmd.name())
             };
@@ -407,7 +453,10 @@ fn one_history(d: &mut Draw, thorough: bool) -> Outcome {
         }
         let (cd, wd) = (cold.diag_multiset(), warm.diag_multiset());
         if cd != wd {
-            let sig = diag_signature(&warm, &cd, &wd);
+            let mut sig = diag_signature(&warm, &cd, &wd);
+            if sig == "diagnostics/unexplained" && !dependents_of_moved(&p, &ed, &since).is_empty() {
+                sig = "diagnostics/definition-moved-dependents-not-reanalysed";
+            }
             let (only_cold, only_warm) = multiset_diff(&cd, &wd);
             return Outcome::fail(
                 sig,
@@ -502,7 +551,7 @@ fn one_history(d: &mut Draw, thorough: bool) -> Outcome {
 /// `{"toml": text, "files": {rel: text}, "steps": [step…]}` with steps
 /// `{"op":"cmd","cmd":"build"|"check"}`,
 /// `{"op":"write","rel":…,"text":…,"kind":"plain"|"older"|"generic_user"}`,
-/// `{"op":"remove","rel":…}`,
+/// `{"op":"remove","rel":…}`, `{"op":"rename","from":…,"to":…}`,
 /// `{"op":"toml","text":…,"kind":"build_option"|"format"}`.
 /// Same oracle as the generated histories; the step kinds feed the same
 /// root-cause naming.
@@ -520,6 +569,7 @@ fn scripted(pl: &serde_json::Value) -> Outcome {
     let mut generic = false;
     let mut hashed = false; // older/opts followed by a saving check
     let mut map_deleted = false;
+    let mut moved = false;
     let mut log = vec![];
     let empty = vec![];
     for st in pl["steps"].as_array().unwrap_or(&empty) {
@@ -539,6 +589,12 @@ fn scripted(pl: &serde_json::Value) -> Outcome {
                     _ => ws.write(rel, text),
                 }
                 log.push(format!("write {rel} ({})", st["kind"].as_str().unwrap_or("plain")));
+            }
+            "rename" => {
+                let (from, to) = (st["from"].as_str().unwrap_or(""), st["to"].as_str().unwrap_or(""));
+                ws.rename(from, to);
+                moved = true;
+                log.push(format!("mv {from} {to}"));
             }
             "remove" => {
                 let rel = st["rel"].as_str().unwrap_or("");
@@ -586,6 +642,8 @@ fn scripted(pl: &serde_json::Value) -> Outcome {
                         "output/check-stored-entry-trusted-by-build"
                     } else if map_deleted {
                         "output/deleted-map-not-regenerated"
+                    } else if moved {
+                        "output/definition-moved-dependents-not-reanalysed"
                     } else if format {
                         "output/format-section-not-in-cache-key"
                     } else if generic {
@@ -605,6 +663,7 @@ fn scripted(pl: &serde_json::Value) -> Outcome {
                     generic = false;
                     hashed = false;
                     map_deleted = false;
+                    moved = false;
                 }
             }
             _ => {}
